@@ -222,25 +222,28 @@ theorem flat_fixedString (c : Cfg) (n : Nat) (R : List Tok) (hp : u64 n = true) 
   simp [kwTok, flat, parseLeaf, expectSym, LParen, RParen, Tok.isSym, numTok, literalUint,
       parseU64_digits hn, bind, Except.bind, pure, Except.pure]
 
-theorem strVals_labels : ∀ (ls : List W) (R : List Tok), ls ≠ [] →
-    strVals (labelsToks ls ++ RParen :: R) = .ok (ls, R)
+theorem strVals_labels (c : Cfg) : ∀ (ls : List W) (R : List Tok), ls ≠ [] →
+    strVals c (labelsToks ls ++ RParen :: R) = .ok (ls, RParen :: R)
   | [], _, h => absurd rfl h
   | [l], R, _ => by simp [labelsToks, intersperse, strVals, RParen, pure, Except.pure]
   | l :: l2 :: r, R, _ => by
-    have ih := strVals_labels (l2 :: r) R (by simp)
+    have ih := strVals_labels c (l2 :: r) R (by simp)
     simp only [labelsToks, Comma, List.map] at ih
-    simp [labelsToks, intersperse, strVals, Comma, ih, bind, Except.bind, pure, Except.pure]
+    have hend : ∀ X : List Tok, afterCommaEnds c.trailingCommas
+        (intersperse (Tok.sym Sym.Comma) ([Tok.sqs l2] :: List.map (fun l => [Tok.sqs l]) r) ++ X) = false := by
+      intro X; cases r <;> simp [intersperse, afterCommaEnds]
+    simp [labelsToks, intersperse, strVals, hend, Comma, ih, bind, Except.bind, pure, Except.pure]
 
 theorem flat_enum (c : Cfg) (ls : List W) (R : List Tok) (h : ls ≠ []) :
     flat c (kwTok "ENUM" .ENUM :: LParen :: (labelsToks ls ++ [RParen]) ++ R) = .ok (.enum ls, R) := by
-  have := strVals_labels ls R h
-  simp [kwTok, flat, parseLeaf, stringValues, expectSym, LParen, Tok.isSym, bind, Except.bind, pure, Except.pure] at this ⊢
+  have := strVals_labels c ls R h
+  simp [kwTok, flat, parseLeaf, stringValues, expectSym, LParen, RParen, Tok.isSym, bind, Except.bind, pure, Except.pure] at this ⊢
   simp [this]
 
 theorem flat_set (c : Cfg) (ls : List W) (R : List Tok) (h : ls ≠ []) :
     flat c (kwTok "SET" .SET :: LParen :: (labelsToks ls ++ [RParen]) ++ R) = .ok (.set ls, R) := by
-  have := strVals_labels ls R h
-  simp [kwTok, flat, parseLeaf, stringValues, expectSym, LParen, Tok.isSym, bind, Except.bind, pure, Except.pure] at this ⊢
+  have := strVals_labels c ls R h
+  simp [kwTok, flat, parseLeaf, stringValues, expectSym, LParen, RParen, Tok.isSym, bind, Except.bind, pure, Except.pure] at this ⊢
   simp [this]
 
 theorem parseIdent_identTok (c : Cfg) (env : Env) (i : Ident) (r : List Tok) :
